@@ -34,7 +34,7 @@ def run_property(pid, tier="quick", overlay=None, write=True, out=print, root=No
         if tier == "thorough" and overlay is None:
             if hasattr(mod, "thorough"):
                 mod.thorough(ctx, chk)
-            if not chk.violations() and not chk.errors:
+            if not report.new_violations(chk) and not chk.errors:
                 from . import selftest
 
                 selftest.run(pid, ctx, chk)
